@@ -29,9 +29,10 @@ LABELS = ["r", "R", "Foo Bar", "foo  bar", "FOO\tbar", "foo\nbar", "ß", "SS", "
           "foo\\]\nbar", "FOO\\] BAR", "a\\]\nb\nc", "x\\[\ny", "w1 w2 w3 w4 w5 w6 w7 w8 w9 w10 w11 w12", "W1  w2 w3\tw4 w5 w6 w7 w8 w9  w10\tw11\nw12", "w1 w2 w3 w4 w5 w6 w7 w8 w9 w10 w11\xa0w12", "1", "١", "!", "\\!"]
 TITLES = ["", ' "t"', " 't'", " (t)", ' "a \\" b"', ' "&amp; *x*"', ' "multi\nline"', " 'it\\'s'", ' "é"', ' ""', " '\\''", ' "a\\\\"', ' "(x)"', " (a\\)b)", "\n'next line'",
           ' "multi\n    # line"', " 'a\n     > b'", ' (x\n    - y)', "\n    'next line'", '\n\t"tab title"', ' "a\n    ```\n    b"', ' "a\n      <div>"', " 'a\n    1. b'",
+          ' "one\n[x]: two"', " 'a\n[b]: /c d'", " (p\n[q]:\nr)", ' "a\u2028b"', ' "a\x0cb\x85c"', " 'x\x1cy\x0bz'", " (u\u2029v)", ' "l1\u2028\u2028l2"',
           ' "tab\there"', " (&quot;)", ' "<b>"', ' "one\\\ntwo"', " 'a\\\nb\\\nc'", ' "x\\\\"', " (p\\\nq)"]
 DESTS = ["/u", "http://x.y/z?a=b&c", "<a b>", "<>", "a(b)c", "a\\(b", "&amp;x", "%20x", "é", "x#f", "a\\*b", "<a\\>b>", "&#35;", "javascript:x", "a_b_c", "a*b*", "x\\\\y",
-         "/forbidden/x", "http://x.y/forbidden", "JavaScript:alert(1)", "/rel/path?q=1#f",
+         "\n[b]:/v", "/forbidden/x", "http://x.y/forbidden", "JavaScript:alert(1)", "/rel/path?q=1#f",
          "<(>", "((a))", "a\\)", "/ü/%zz", "<a\tb>", "data:image/png;base64,x", "#", "//h/p", "\\<a>", "&copy;", "<\\<>"]
 TEXTS = ["t", "*e*", "`c`", "a b", "x\\]y", "![i](s)", "é", "a\nb", "&amp;", "[in]", "**s** _e_", "<b>h</b>", "a\\\\", "`]`", "x [y] z", "", "\\[", "<http://a.b>", "  p  ", "a  \nb"]
 
